@@ -295,6 +295,10 @@ def _render_impl(it, lead, lay, depth, out, ind):
     impl = it["impl"]
     # only layout (whitespace / annotation comments) between a declaration and its implementation
     out.append(_gap(lay, ind))
+    if lay.c and (lay.c[lay.i % len(lay.c)] + lay.i) % 6 == 2:
+        # a long stretch of hidden material (no choice is consumed: older replay files render as before)
+        lay.features.add("long-gap-before-implementation")
+        out.append("\n\n" + ind + "# ZZCMT a longer note\n" * 4 + "\n" + ind + "#[[ ZZCMT\n\n\n\n\n]]\n\n" + ind + "# ZZCMT\n\n")
     if impl.get("doc") is not None:
         out.append(render_doc(impl["doc"], lay))
         out.append(_between_doc_and_cmd(lay, ind))
@@ -320,6 +324,10 @@ def render(module, layout=None, force_doc_indent=None, eof_newline=True, feature
         out.append(render_doc({"lines": md["lines"], "form": "leader", "indent": md.get("indent")}, lay, head=head))
     render_items(module["items"], lay, 0, out)
     out.append(_gap(lay, ""))
+    if len(lay.c) >= 2 and (lay.c[0] * 3 + lay.c[-1]) % 7 == 5:
+        # a first-line comment that reads like an encoding declaration of other languages (to CMake: a comment)
+        lay.features.add("encoding-cookie-comment")
+        out.insert(0, ["# -*- coding: latin-1 -*-\n", "# vim: set fileencoding=cp1252 :\n", "#!/usr/bin/cmake -P\n# coding=ascii\n"][lay.c[0] % 3])
     text = "".join(out)
     if not eof_newline and text.endswith("\n"):
         text = text[:-1]
